@@ -192,7 +192,7 @@ def post_state(eng, contract, src, outcome):
                     continue  # may raise under conditions the contract does not pin down
                 eng.prove(z3.Not(eng.truth(eng.eval_clause(when))), "raises_iff", "no %s => not(%s)" % (exc.__name__, when), src.first_line, assume_after=False)
             frame_obligations(eng, contract, src)
-            for i, cl in enumerate(contract.ensures):
+            for i, cl in enumerate(contract.ensures + contract.variant_ensures.get(sh.variant_name, [])):
                 # earlier postconditions serve as lemmas for later ones (each is proved before it is assumed)
                 is_lemma = cl.startswith("lemma:")
                 if is_lemma and getattr(sh, "refute_bound", 0):
